@@ -6,7 +6,7 @@ Require Extraction.
 From Coq Require Import ExtrOcamlBasic.
 From Coq Require Import String ZArith List Bool.
 From Nexus Require Import Transport.GoArith Transport.RawOps Transport.RawFrame Transport.RawSpec
-  Transport.RawHandshakeSpec Transport.PeerDiscipline.
+  Transport.RawHandshakeSpec Transport.PeerDiscipline Transport.WsPeer.
 Import ListNotations.
 Open Scope Z_scope.
 
@@ -40,10 +40,14 @@ Definition m_machine (sched : list who) (body hdr payload : list Z) : state :=
                   (map (fun hp => frame_acts_r (ops_for spec_params 1 (len payload)) m_mutex (fst hp) (snd hp))
                        ((hdr, payload) :: nil))).
 
+Definition m_ws_send (keepalive : bool) (pattern : list bool) : list (list Z) :=
+  ws_send (Z * bool)%type (fun m => if snd m then Some (fst m :: nil) else None) ws_spec_shape
+          (combine (map Z.of_nat (seq 0 (length pattern))) pattern).
+
 Extraction "c15spec"
   accept_handshake connect_handshake accept_closes_on_error connect_closes_on_error
   get_proto_byte server_accept_args server_attaches_peer
   byte_to_length fit_recv_limit int_to_bytes bytes_to_int
   c_magic c_rawsocketJSON c_rawsocketMsgpack c_rawsocketCBOR
   m_recv s_recv m_select m_send_drop m_send_header m_send_ops m_discipline m_mutex
-  m_machine tags wire_bytes contiguousb finished.
+  m_machine tags wire_bytes contiguousb finished m_ws_send.
